@@ -186,13 +186,6 @@ Lemma small_cases b : b < 32 ->
   b = 23 \/ b = 24 \/ b = 25 \/ b = 26 \/ b = 27 \/ b = 28 \/ b = 29 \/ b = 30 \/ b = 31.
 Proof. lia. Qed.
 
-(* what the parser's string loop does on the escaped form of one byte: it yields that byte and continues *)
-Lemma parse_str_body_byte f b rest :
-  parse_str_body (S (S (S (S (S (S f)))))) (escape_byte b ++ rest) =
-  match parse_str_body (S (S (S (S (S (S f)))))) (escape_byte b ++ rest), parse_str_body (S (S (S (S (S f))))) rest with
-  | Some x, _ => Some x | None, _ => None end.
-Proof. destruct (parse_str_body _ _); reflexivity. Qed.
-
 Lemma parse_escaped_byte b rest :
   (b =? 34) || (b =? 92) || (b <? 32) = true ->
   exists esc, escape_byte b = 92 :: esc /\ parse_escape (esc ++ rest) = Some ([b], rest).
